@@ -22,6 +22,7 @@
 #include <pthread.h>
 #include <signal.h>
 #include <xcm_addr.h>
+#include "xcmc.h"
 
 extern void log_console_conf(bool enabled);
 
@@ -30,6 +31,7 @@ enum vtp { TP_UX, TP_UXF, TP_TCP, TP_TLS, TP_UTLS_UX, TP_BTCP, TP_BTLS };
 static bool vtp_is_bytestream(enum vtp t) { return t == TP_BTCP || t == TP_BTLS; }
 static bool vtp_is_tls(enum vtp t) { return t == TP_TLS || t == TP_BTLS; }
 static struct vpki_ent *veng_ca, *veng_leaf;
+static char ctl_dir15[700]; static bool ctl_on;
 static void local_init(void)
 {
     char d[600], p[700];
@@ -39,6 +41,7 @@ static void local_init(void)
     vpki_write_dir(d, veng_leaf->cert_pem, veng_leaf->key_pem, veng_ca->cert_pem, NULL);
     setenv("XCM_TLS_CERT", d, 1);
     snprintf(p, sizeof p, "%s/no-such-ctl-dir", va.dir); setenv("XCM_CTL", p, 1);
+    snprintf(ctl_dir15, sizeof ctl_dir15, "%s/ctl15", va.dir); mkdir(ctl_dir15, 0700);
     snprintf(p, sizeof p, "%s/uxf", va.dir); mkdir(p, 0700);
 }
 
@@ -64,7 +67,7 @@ static void tv(const char *rule, const char *what, const char *fmt, ...)
     pthread_mutex_unlock(&mu);
 }
 
-struct tstat { long conns, msgs, attrs, bursts, handed, received_hand, tls_shared, tls_private; };
+struct tstat { long conns, msgs, attrs, bursts, handed, received_hand, tls_shared, tls_private, names, ctl_sessions; };
 
 static bool make_pair(enum vtp tp, int tid, int n, struct xcm_attr_map *extra, struct handoff *h)
 {
@@ -121,6 +124,10 @@ static void close_pair(struct handoff *h) { if (h->cl) xcm_close(h->cl); if (h->
 
 struct targ { int tid; struct tstat st; struct vpki_ent *own; };
 
+struct ctlq { int n; pid_t pid[8]; int64_t ref[8]; };
+static void list_cb(pid_t creator_pid, int64_t sock_ref, void *data) { struct ctlq *c = data; if (c->n < 8) { c->pid[c->n] = creator_pid; c->ref[c->n] = sock_ref; c->n++; } }
+static void ctl_attr_cb(const char *name, enum xcm_attr_type type, void *value, size_t len, void *data) { (void)name; (void)type; (void)value; (void)len; (*(long *)data)++; }
+
 static void *worker(void *arg)
 {
     struct targ *t = arg; vrng r = { vmix(case_seed ^ (uint64_t)(t->tid * 7919 + 1)) };
@@ -162,7 +169,18 @@ static void *worker(void *arg)
             xcm_addr_parse_tcp("tcp:192.168.1.1:4711", &host, &port); xcm_addr_make_tls(&host, port, buf, sizeof buf); xcm_addr_parse_utls("utls:[::1]:99", &host, &port);
             xcm_addr_is_valid("tls:some.name.example:1"); xcm_addr_is_valid("ux:x"); xcm_addr_is_valid("nonsense");
             struct xcm_attr_map *m = xcm_attr_map_create(); xcm_attr_map_add_str(m, "a", "b"); struct xcm_attr_map *c = xcm_attr_map_clone(m); xcm_attr_map_destroy(m); xcm_attr_map_destroy(c);
-        } else if (a < 94 && t->tid == 0) { log_console_conf(vrnd_p(&r, 50)); }
+        } else if (a < 93) {
+            /* a host name: every thread runs its own resolver channel (the name is in the hosts file; the port refuses) */
+            struct xcm_attr_map *m = xcm_attr_map_create(); xcm_attr_map_add_bool(m, "xcm.blocking", false); xcm_attr_map_add_double(m, "dns.timeout", 0.3);
+            struct xcm_socket *x = xcm_connect_a(vrnd_p(&r, 50) ? "tcp:localhost:1" : "tls:localhost:1", m); xcm_attr_map_destroy(m);
+            for (int i = 0; x && i < 60; i++) { if (xcm_finish(x) == 0 || errno != EAGAIN) break; struct pollfd none; poll(&none, 0, 1); }
+            if (x) xcm_close(x);
+            t->st.names++;
+        } else if (a < 96 && ctl_on && t->tid < 2) {
+            /* a control client inside the process: looks at sockets that belong to other threads, through their control sockets only */
+            struct ctlq cq = { 0 }; xcmc_list(list_cb, &cq);
+            for (int i = 0; i < cq.n && i < 2; i++) { struct xcmc_session *ss = xcmc_open(cq.pid[i], cq.ref[i]); if (ss) { long na = 0; xcmc_attr_get_all(ss, ctl_attr_cb, &na); xcmc_close(ss); t->st.ctl_sessions++; } }
+        } else if (a < 97 && t->tid == 0) { log_console_conf(vrnd_p(&r, 50)); }
         else { struct xcm_socket *x = xcm_connect("tcp:127.0.0.1:1", XCM_NONBLOCK); if (x) xcm_close(x); }
     }
     xcm_attr_map_destroy(own);
@@ -179,6 +197,9 @@ static void one_case(long idx)
     pthread_t th[16]; struct targ ta[16]; memset(ta, 0, sizeof ta);
     for (int i = 0; i < nthreads; i++) { ta[i].tid = i; struct vpki_opts o; vpki_opts_default(&o); o.eku = VPKI_EKU_BOTH; char cn[32]; snprintf(cn, sizeof cn, "thread-%d", i); ta[i].own = vpki_make(cn, veng_ca, &o); }
     __atomic_store_n(&overlap_create, 0, __ATOMIC_RELAXED); __atomic_store_n(&overlap_tls, 0, __ATOMIC_RELAXED);
+    /* every other case runs with the control interface on (the environment is only changed while no thread runs) */
+    ctl_on = (idx % 2) == 1;
+    { char np[800]; snprintf(np, sizeof np, "%s/no-such-ctl-dir", va.dir); setenv("XCM_CTL", ctl_on ? ctl_dir15 : np, 1); }
     for (int i = 0; i < nthreads; i++) pthread_create(&th[i], NULL, worker, &ta[i]);
     for (int i = 0; i < nthreads; i++) pthread_join(th[i], NULL);
     log_console_conf(false);
@@ -186,10 +207,12 @@ static void one_case(long idx)
     struct tstat s = { 0 };
     for (int i = 0; i < nthreads; i++) { s.conns += ta[i].st.conns; s.msgs += ta[i].st.msgs; s.attrs += ta[i].st.attrs; s.bursts += ta[i].st.bursts; s.handed += ta[i].st.handed; s.received_hand += ta[i].st.received_hand; s.tls_shared += ta[i].st.tls_shared; s.tls_private += ta[i].st.tls_private; vpki_free(ta[i].own); }
     vobs("threads_run", nthreads); vobs("connections", s.conns); vobs("messages_verified", s.msgs); vobs("attribute_reads", s.attrs); vobs("socket_bursts", s.bursts);
+    long names = 0, ctls = 0; for (int i = 0; i < nthreads; i++) { names += ta[i].st.names; ctls += ta[i].st.ctl_sessions; }
+    vobs("host_name_connects", names); vobs("in_process_control_sessions", ctls); if (ctl_on) vobs("cases_with_control_interface", 1);
     vobs("sockets_handed_over", s.received_hand); vobs("tls_pairs_shared_credentials", s.tls_shared); vobs("tls_pairs_private_credentials", s.tls_private);
     long oc = __atomic_load_n(&overlap_create, __ATOMIC_RELAXED), ot = __atomic_load_n(&overlap_tls, __ATOMIC_RELAXED);
     vobs("overlapping_creations", oc); vobs("overlapping_tls_creations", ot);
-    char sg[64]; snprintf(sg, sizeof sg, "threads|%d", nthreads); vsig_str(sg);
+    char sg[64]; snprintf(sg, sizeof sg, "threads|%d|ctl%d", nthreads, ctl_on); vsig_str(sg);
     if (idx < 2) vsample(ctx);
     vcase_done(oc > 0);
 }
